@@ -25,6 +25,7 @@ def step (st : DState) (line : String) : DState × String :=
   | "mk" :: rest => (st, Drv.Markup.handle rest)
   | "rp" :: rest => (st, Drv.Replace.handle rest)
   | "pp" :: rest => (st, Drv.Pretty.handle rest)
+  | "rg" :: rest => (st, Drv.Registry.handle rest)
   | "sy" :: rest => let (p, o) := Drv.Styles.handle st.sty rest; ({ st with sty := p }, o)
   | "pk" :: rest => let (p, o) := Drv.Pkg.handle st.pkg rest; ({ st with pkg := p }, o)
   | "row" :: "trav" :: rest => (st, Drv.Row.handleTrav st.row rest)
